@@ -188,7 +188,7 @@ def insTriple (x : (Nat × Nat × Nat) × String) : List ((Nat × Nat × Nat) ×
 
 def joinOr (l : List String) : String := if l.isEmpty then "-" else "|".intercalate l
 
-def specLine (id : String) (c : Case) (bin : String) (rawDigest : String := "-") : String :=
+def specLine (id : String) (c : Case) (bin : String) (rawDigest : String := "-") (specOrder : String := "-") : String :=
   let ms := Spec.Cells.measOf c.res
   let keys := Spec.Cells.cellKeys ms
   let ident (k : Key × Key × Key) : Nat × Nat × Nat := (idxOf c.T k.1, idxOf c.R k.2.1, idxOf c.C k.2.2)
@@ -210,14 +210,15 @@ def specLine (id : String) (c : Case) (bin : String) (rawDigest : String := "-")
   let gm := tabs.flatMap fun t =>
     (Spec.Cells.colsOf ms t).map fun cc =>
       let f := Spec.Cells.gmFlags cfg.rankC centre ms t cc
-      let s := (if f.differs then "d" else "") ++ (if f.sumNonPos then "s" else "") ++ (if f.ratioWarn then "r" else "")
+      let s := if f.hasInf then "i" else
+        (if f.differs then "d" else "") ++ (if f.sumNonPos then "s" else "") ++ (if f.ratioWarn then "r" else "")
       (((idxOf c.T t, idxOf c.C cc, 0) : Nat × Nat × Nat), s, f.superset)
   let gmParts := (gm.filter fun x => x.2.1 != "").map fun x => (x.1, s!"{x.1.1}.{x.1.2.1}={x.2.1}")
   let sorted (l : List ((Nat × Nat × Nat) × String)) : List String := (l.foldr insTriple []).map (·.2)
   -- "the unit's statistical assumption": from the unit metadata of ALL input files
   let asParts := tabs.map fun t =>
     (((idxOf c.T t, 0, 0) : Nat × Nat × Nat), s!"{idxOf c.T t}={aName (specAssume (cfg.unitOf t))}")
-  s!"spec {id} cells={joinOr (sorted cells)} resw={joinOr (sorted resw)} gmw={joinOr (sorted gmParts)} assume={joinOr (sorted asParts)} stats=ok colpos=ok rawcells={rawDigest} bin={bin}"
+  s!"spec {id} cells={joinOr (sorted cells)} resw={joinOr (sorted resw)} gmw={joinOr (sorted gmParts)} assume={joinOr (sorted asParts)} stats=ok colpos=ok hdrcfg=ok order={specOrder} rawcells={rawDigest} bin={bin}"
 
 
 def hexStr (s : String) : String := (Bytes.ofString s).toHex
@@ -305,6 +306,49 @@ def rawCellsDigest (l : Line) (c : Case) : String :=
     s!"{encTuple k.1}|{encTuple k.2.1}|{encTuple k.2.2}={".".intercalate ((canon (g.map (·.value))).map F64.toHex)}"
   let sorted := items.foldr insStr []
   s!"{sorted.length}:{hex16 (fnv1a sorted)}"
+
+
+/-- SPECIFICATION of the arrangement: tables, and each table's rows and columns, in the documented
+orders (first observation / alpha / num / fixed, lexicographic over the fields, `Spec.Keys`),
+computed from the raw results — not from the order `Key.Less` gave. The baseline column is the
+first of the columns. -/
+def specOrders (l : Line) (c : Case) : String :=
+  if l.getD "rawok" "0" != "1" then "-" else
+  let specStr := l.getD "specs" ""
+  let specs := (specStr.splitOn ";").map fun e => if e == "" then [] else (e.splitOn "+").map decSpec
+  let rawStr := l.getD "raw" "-"
+  let raws := if rawStr == "-" then [] else (rawStr.splitOn ";").map decRes
+  let ops : List Spec.Keys.Op :=
+    [.parse true (specs.getD 0 []), .parse false (specs.getD 1 []), .parse false (specs.getD 2 []),
+     .parse false (specs.getD 3 []), .residue] ++
+    raws.flatMap fun r => [.proj true 0 r, .proj false 1 r, .proj false 2 r, .proj false 4 r]
+  let pn := specNumOf (specPn (decPnRaw (l.getD "pn" "-")))
+  let specific := Spec.Keys.specificKeys ops
+  let ps := Spec.Keys.projections ops
+  let ltOf (i : Nat) : Key → Key → Bool :=
+    let p := ps.getD i default
+    let obs := Spec.Keys.observations ops ps i
+    let cols := Spec.Keys.columns specific p obs
+    let tuples := obs.map fun o => cols.map fun cc => cc.value specific o
+    let colInfo := cols.zipIdx.map fun (cc, j) => (cc.order, tuples.map fun t => t.getD j [])
+    fun a b => Spec.Keys.tupleLess pn colInfo a b
+  let sortBy (lt : Key → Key → Bool) (ks : List Key) : List Key :=
+    ks.foldr (fun x acc =>
+      let rec ins : List Key → List Key
+        | [] => [x]
+        | y :: ys => if lt y x then y :: ins ys else x :: y :: ys
+      ins acc) []
+  let ltT := ltOf 0
+  let ltR := ltOf 1
+  let ltC := ltOf 2
+  let ms := Spec.Cells.measOf c.res
+  let tabs := sortBy ltT ((ms.map (·.table)).eraseDups)
+  if tabs.isEmpty then "none" else
+  ";".intercalate (tabs.map fun t =>
+    let inT := ms.filter fun m => m.table == t
+    let rows := sortBy ltR ((inT.map (·.row)).eraseDups)
+    let cols := sortBy ltC ((inT.map (·.col)).eraseDups)
+    s!"{idxOf c.T t}:{".".intercalate (rows.map fun k => toString (idxOf c.R k))}/{".".intercalate (cols.map fun k => toString (idxOf c.C k))}")
 
 end Raw
 
